@@ -82,3 +82,21 @@ Proof.
 Qed.
 Example object_premises : comps_closed (img_of [[true; true]]) (img_of [[true; true]]).
 Proof. apply comps_closed_self. Qed.
+
+Theorem skeletonize_loop_subset : forall H W order g p, wf H W g -> NoDup order ->
+  (forall q, In q order -> img_of g q = true) ->
+  img_of (skel_loop_grid H W order g) p = true -> img_of g p = true.
+Proof. intros H W order g p Hg ND Hf. apply (te_sub _ _ (skel_loop_grid_topo H W order g Hg ND Hf)). Qed.
+
+(* Euler number = (number of 8-components) - (number of holes) = |fg reps| - (|bg reps| - 1): preserved *)
+Theorem euler_preserved : forall X X' l m', TopoEq X X' ->
+  comp_reps adj8 (fg X) l -> comp_reps adj4 (bg X') m' ->
+  exists l' m, comp_reps adj8 (fg X') l' /\ comp_reps adj4 (bg X) m /\
+    length l' = length l /\ length m = length m' /\
+    Z.of_nat (length l) - (Z.of_nat (length m) - 1) = Z.of_nat (length l') - (Z.of_nat (length m') - 1).
+Proof.
+  intros X X' l m' T Rl Rm.
+  destruct (topo_counts_fg X X' T l Rl) as [l' [L1 [R1 _]]].
+  destruct (topo_counts_bg X X' T m' Rm) as [m [L2 [R2 _]]].
+  exists l', m. repeat split; try assumption; try (apply R1); try (apply R2). lia.
+Qed.
